@@ -1,3 +1,4 @@
+from .. import srcgen
 from ..runner import Config
 
 
@@ -5,7 +6,7 @@ class C05(Config):
     pid = "C05"
     proof_targets = ["C05/Properties.vo"]
     corr_targets = ["C05/Corr.vo", "C05/Wf.vo"]
-    audit_dirs = ["Lib", "C05"]
+    audit_dirs = ["Lib", "Gen", "C05"]
     header = ("From V.Lib Require Import Base.\n"
               "From V.C05 Require Import Model Spec Corr Wf.\n"
               "Local Open Scope N_scope.")
@@ -29,6 +30,7 @@ class C05(Config):
         "harness printers, per-case interning of opaque 32-byte values (equality-preserving), catch_unwind wrappers, "
         "the recording WalletWrite (harness/wallet/src/c05gen/spy.rs, derived from MockWalletDb); vlib case-file generator",
         "canonical-encoding flags of field elements are computed by the harness by comparing with the field moduli",
+        "ZIP 212: the model decides from the block's claimed height, the Canopy activation height and ZIP212_GRACE_PERIOD (regenerated from consensus.rs) whether a Sapling plaintext with lead byte 0x01/0x02 is accepted; the generator only reports the lead byte it encrypted with",
         "external crates: sapling-crypto, orchard, zcash_note_encryption (decryption correctness), rayon, flume, prost",
     ]
     assumptions = [
@@ -46,6 +48,11 @@ class C05(Config):
         "for blocks with several simultaneous defects the batched path may report a different error than the inline path "
         "(add_block validates every output of every block before continuity is checked); only 'rejected' is compared there",
     ]
+
+    @staticmethod
+    def gen():
+        g = srcgen.int_const("components/zcash_protocol/src/consensus.rs", "ZIP212_GRACE_PERIOD")
+        srcgen.write_gen("C05Consts", srcgen.z_defs([("ZIP212_GRACE_PERIOD", g)]))
 
 
 CONFIG = C05()
